@@ -214,6 +214,22 @@ class NamespaceFn:
         self.finder = model.func("_checkers.find_checker")
         # the loop over the bases
         self.base_loops = [n for n in self.cfg.nodes if n.kind == "next" and any(p.kind == "iter" and self.flow.term(p.ast, p) == ("param", self.bases_p) for _, p in n.pred)]
+        # a loop over the bases that only *tests* (``for base in bases: if getattr(base, key, None) is func: return``,
+        # the statement form of ``any(...)``) collects nothing: it is a guard, not the loop the rules ask about
+        def _only_tests(stmts):
+            for s in stmts:
+                if isinstance(s, (ast.Pass, ast.Return, ast.Continue, ast.Break)):
+                    if isinstance(s, ast.Return) and s.value is not None and not isinstance(s.value, ast.Constant):
+                        return False
+                    continue
+                if isinstance(s, ast.If) and _only_tests(s.body) and _only_tests(s.orelse):
+                    continue
+                return False
+            return True
+
+        collecting = [h for h in self.base_loops if not (isinstance(h.stmt, (ast.For, ast.AsyncFor)) and not h.stmt.orelse and _only_tests(h.stmt.body))]
+        if collecting:
+            self.base_loops = collecting
         self.all_loops = [n for n in self.cfg.nodes if n.kind == "next"]
         self.stores = {}  # dunder -> list of (node, target base term, value term)
         for n in self.cfg.nodes:
@@ -489,6 +505,11 @@ def snapshot_provenance(run, model, rule):
                                 # ``id(snap) in <set of ids>``: identity through id()
                                 if isinstance(c, ast.Compare) and len(c.ops) == 1 and isinstance(c.ops[0], ast.In) and isinstance(c.left, ast.Call) and isinstance(c.left.func, ast.Name) and c.left.func.id == "id" and len(c.left.args) == 1 and isinstance(c.left.args[0], ast.Name):
                                     return True
+                                # ... with the id bound to a local first: ``snap_id = id(snap)`` ; ``snap_id in <ids>``
+                                if isinstance(c, ast.Compare) and len(c.ops) == 1 and isinstance(c.ops[0], ast.In) and isinstance(c.left, ast.Name):
+                                    binds = [st_.value for st_ in ast.walk(fi.node) if isinstance(st_, ast.Assign) and any(isinstance(tg_, ast.Name) and tg_.id == c.left.id for tg_ in st_.targets)]
+                                    if binds and all(isinstance(b_, ast.Call) and isinstance(b_.func, ast.Name) and b_.func.id == "id" and len(b_.args) == 1 and isinstance(b_.args[0], ast.Name) for b_ in binds):
+                                        return True
                             return False
 
                         if not all(by_identity(e) for e in exprs):
@@ -501,6 +522,10 @@ def snapshot_provenance(run, model, rule):
             # identity through id(): ``id(snap) in <set of ids>``
             if isinstance(sub, ast.Compare) and len(sub.ops) == 1 and isinstance(sub.ops[0], (ast.In, ast.NotIn)) and isinstance(sub.left, ast.Call) and isinstance(sub.left.func, ast.Name) and sub.left.func.id == "id":
                 ident = True
+            if isinstance(sub, ast.Compare) and len(sub.ops) == 1 and isinstance(sub.ops[0], (ast.In, ast.NotIn)) and isinstance(sub.left, ast.Name):
+                binds_ = [st_.value for st_ in ast.walk(fi.node) if isinstance(st_, ast.Assign) and any(isinstance(tg_, ast.Name) and tg_.id == sub.left.id for tg_ in st_.targets)]
+                if binds_ and all(isinstance(b_, ast.Call) and isinstance(b_.func, ast.Name) and b_.func.id == "id" for b_ in binds_):
+                    ident = True
         if not ident and bad is None:
             bad = "equal names always raise: the very same snapshot object inherited along two paths of a diamond is reported as a conflict (no identity test)"
         # names are recorded
